@@ -5,6 +5,7 @@
 From SF Require Import Base.Prelude Gen.Generated Unsized.Types Unsized.Parse Unsized.Machine Unsized.Ops.
 From SF Require Import Unsized.Proofs.EncodeParse Unsized.Proofs.Mem Unsized.Proofs.Notify Unsized.Proofs.Flat Unsized.Proofs.Layout
   Unsized.Proofs.Table Unsized.Proofs.Path Unsized.Proofs.Context Unsized.Proofs.Focus Unsized.Proofs.Pos.
+From SF Require Import Unsized.Proofs.EnumFacts.
 
 Arguments Z.add : simpl never.
 Arguments Z.sub : simpl never.
@@ -398,6 +399,31 @@ Proof.
     unfold elem_addr. rewrite Hl', (usizes_set_nth _ _ _ _ _ Hkv), firstn_bump. reflexivity.
 Qed.
 
+(* the variant step: the enum's start pointer lies at or before the source and stays; the payload is notified *)
+Lemma ni_SV r : ni_stmt r -> ni_stmt (SV :: r).
+Proof.
+  intros IH t last v p pre post Hpl Hok Hwf Hr0 HL Hlt.
+  pose proof Hr0 as Hr.
+  apply resolve_SV_inv in Hr as (rw & vars & d0 & pv & vt & -> & -> & Hf & Hr).
+  destruct p as [| | | | |st d' q]; try (cbn [LayP] in HL; contradiction).
+  cbn [LayP] in HL. destruct HL as (-> & -> & vt' & Hf' & HLq). rewrite Hf in Hf'. injection Hf' as <-.
+  destruct (wf_enum_inv _ _ _ _ Hwf) as (_ & vt' & Hf' & Hwi). rewrite Hf in Hf'. injection Hf' as <-.
+  pose proof (plain_enum_find _ _ _ _ Hpl Hf) as Hplv.
+  pose proof (ty_ok_enum_variant _ _ _ _ _ Hok Hf) as Hokv.
+  rewrite (zlen_encode_enum _ _ _ _ _ Hf) in Hlt.
+  pose proof (zlen_nonneg (fst (hctx vt pv r 0))) as HnP.
+  destruct (IH vt last pv q (pre ++ le_bytes rw d0) post Hplv Hokv Hwi Hr) as (q' & Hnq & HLq').
+  { rewrite zlen_app, zlen_le_bytes. exact HLq. }
+  { lia. }
+  unfold addr_of in Hnq. rewrite zlen_app, zlen_le_bytes in Hnq, HLq'. rewrite <- ?app_assoc in Hnq.
+  exists (PEnum (zlen pre) d0 q'). split.
+  - unfold addr_of. rewrite !(hctx_SV _ _ _ _ _ _ Hf). cbn [fst snd]. rewrite zlen_app, zlen_le_bytes, Z.add_assoc.
+    rewrite <- ?app_assoc. rewrite notify_enum, Hf, Hnq. cbn [obind].
+    destruct (_ <? zlen pre) eqn:E; [zb; lia|reflexivity].
+  - rewrite (plug_SV _ _ _ _ _ _ _ Hf). cbn [LayP]. split; [reflexivity|]. split; [reflexivity|].
+    exists vt. split; [exact Hf|exact HLq'].
+Qed.
+
 End Inside.
 
 Theorem notify_inside : forall pi t last v p X xv xv' c h pre post,
@@ -416,10 +442,11 @@ Proof.
   intros pi t last v p X xv xv' c h pre post Hpl Hok Hwf Hr HcX HL Hh Hx' Hnn Hlt.
   revert t last v p pre post Hpl Hok Hwf Hr HL Hlt.
   change (ni_stmt X xv xv' c h pi).
-  induction pi as [|[i|i] r IH].
+  induction pi as [|[i|i|] r IH].
   - apply ni_nil; assumption.
   - apply ni_SF; assumption.
   - apply ni_SE; assumption.
+  - apply ni_SV; assumption.
 Qed.
 
 Print Assumptions notify_own.
